@@ -113,6 +113,14 @@ pub fn format_comments(comments: &ChildTrivia, loc: CommentLocation, out: &mut P
 							.to_string();
 					}
 
+					// Text that starts right after the opener is not part of the padding computation above,
+					// it loses its leading blanks here (otherwise they are removed by the next pass only)
+					if immediate_start {
+						if let Some(first) = lines.first_mut() {
+							*first = first.trim_start().to_string();
+						}
+					}
+
 					p!(out, str("/*"));
 					if doc {
 						p!(out, str("*"));
